@@ -201,13 +201,16 @@ func (w World) Clone() World {
 }
 
 // names used for named slots and values.
-var Names = []string{"a", "b", "c", "d", "alpha", "beta", "ärger"}
+var Names = []string{"a", "b", "c", "d", "alpha", "beta", "ärger", "-"}
 
 // Subs[:2] are the everyday subtypes; the rest are legal oddities (a case
 // variant of s1, a percent sign, an equals sign) drawn rarely.
 var Subs = []string{"s1", "s2", "s3", "S1", "p%d", "k=v", "k", "t "}
 
 func spellName(n string, sp int) (field, tagName string) {
+	if n == "-" {
+		return "", n // a legal name that only a tag can give (it means nothing special here)
+	}
 	rs := []rune(n)
 	switch sp % 3 {
 	case 0:
